@@ -419,7 +419,8 @@ class Network(Cached):
         # calculate graph attributes
         edges = nz_coords(adjacency)
         self.n_links = edges.shape[0]
-        self.link_density = 1.0 * self.n_links / N / (N - 1)
+        self.link_density = \
+            1.0 * self.n_links / N / (N - 1) if N > 1 else 0.0
         if not self.directed:
             self.n_links //= 2
 
